@@ -424,7 +424,8 @@ def harnesses(tier: str) -> List[H]:
         cfgs = [("chain3", "method", 0), ("two_bases", "method", 0), ("diamond", "method", 0),
                 ("two_bases", "prop_get", 0), ("two_bases", "static", 1), ("chain3", "class", 1)]
     else:
-        cfgs = [(s, k, via) for s in SHAPE_NAMES for k in KINDS for via in (0, 1)]
+        cfgs = [(s, k, 0) for s in SHAPE_NAMES for k in KINDS if len(SHAPES[s]) == 3 or k in ("method", "prop_get", "static")]
+        cfgs += [("two_bases", "method", 1), ("chain3", "prop_set", 1), ("diamond", "method", 1)]
     for (shape, kind, via) in cfgs:
         n = len(SHAPES[shape])
         si, ki = SHAPE_NAMES.index(shape), KINDS.index(kind)
@@ -441,7 +442,7 @@ def harnesses(tier: str) -> List[H]:
                     params.append(I("o%d" % i, 0, 2))
                 else:
                     params.append(I("o%d" % i, 0, len(OPTS) - 1))
-            inv_classes = [0] if tier == "quick" else [0, n - 1]
+            inv_classes = [0]
             params += [B("i%d" % i) for i in inv_classes] + [B("inv_all")]
             params += truth(n) + [B("v%d" % i) for i in inv_classes]
             name = "dag_{}_{}_via{}{}".format(shape, kind, via, "" if o0 is None else "_o%d" % o0)
@@ -451,7 +452,7 @@ def harnesses(tier: str) -> List[H]:
                                 "defines it bare / +pre / +post / +pre+post; invariant on {}; a call on an instance of "
                                 "EVERY class of the hierarchy is judged".format(
                                     shape, SHAPES[shape], kind, ["DBCMeta(name, bases, ns)", "an exec'd class statement"][via],
-                                    "the root" if tier == "quick" else "the root and the most derived class"),
+                                    "the root (check_on CALL or ALL)"),
                          family_size=len(OPTS) ** (n if o0 is None else n - 1) * 2 ** len(inv_classes)))
     out.append(H("ctor", bind(run_ctor, (), ["which", "sub_defines", "tpre", "tpost"], {},
                               ["which", "sub_defines", "tpre", "tpost"]),
